@@ -151,6 +151,9 @@ void apiOp(Ctx &c, const QString &tok)
         s->writeJson(QJsonDocument::fromJson(unhx(p[1])), p[2].toInt());
     } else if (op == "close") {
         s->close();
+    } else if (op == "mark") {
+        // application-side record: by now the application has closed the HTTP socket
+        c.obs->append("x:50:-");
     } else {
         c.obs->append("badop:" + op);
     }
